@@ -32,9 +32,10 @@ import (
 )
 
 const (
-	fC02Double    = "F-C02-double-listing"
-	fC02EarlyTie  = "F-C02-early-exit-ties"
-	fC02NegImpTag = "F-C02-negated-tag-impossible-definition"
+	fC02Double      = "F-C02-double-listing"
+	fC02EarlyTie    = "F-C02-early-exit-ties"
+	fC02NegImpTag   = "F-C02-negated-tag-impossible-definition"
+	fC02InlineAlias = "F-C02-inline-tags-shared-backing"
 )
 
 // ---------------------------------------------------------------------------------------------
@@ -391,6 +392,7 @@ type c02Tag struct {
 	uncertain []uint    // bits of TagDetails.Uncertain
 	nPos      int       // conjuncts of the definition
 	nNeg      int       // conjuncts of the negated definition
+	raw       bool      // hand-written (fixed cases)
 }
 
 func c02Bitmask(bits []uint) bitmask.LongBitmask {
@@ -462,14 +464,19 @@ func c02GenTags(t *rapid.T, open map[string]bool) (tags []*c02Tag, excluded int)
 		tg := &c02Tag{name: name}
 		// the engine inlines the definition (or its negation) into every conjunct that
 		// filters on the tag: both normal forms are kept small (cost only)
-		e := c02DrawExpr(t, cfg, 6, "tagdef", func(e *vq.Node, _ bool) bool {
-			q, err := query.Parse("-(" + e.Render() + ")")
+		e := c02DrawExpr(t, cfg, 6, "tagdef", func(e *vq.Node, hasProto bool) bool {
+			neg := &vq.Node{Kind: vq.KNot, Kids: []*vq.Node{e}}
+			if sz, _ := neg.DNFSize(); sz > 24 || (hasProto && sz > 6) {
+				return false
+			}
+			q, err := query.Parse(neg.Render())
 			return err == nil && len(q.Conditions) <= 6
 		})
 		tg.defText = e.Render()
 		if err := tg.parse(); err != nil {
 			t.Fatalf("tag definition %q does not parse: %v", tg.defText, err)
 		}
+		tg.nNeg = 6 // upper bound established above (1 for the leaf fallback)
 		if open[fC02NegImpTag] && tg.def.Conditions == nil {
 			// a definition that can never match is inlined wrongly under negation: use one that can
 			tg.defText = "id::5"
@@ -526,8 +533,11 @@ func (tg *c02Tag) parse() error {
 	}
 	tg.def, tg.ref = q, q.ReferenceTime
 	tg.nPos, tg.nNeg = len(q.Conditions), 1
-	if nq, err := query.Parse("-(" + tg.defText + ")"); err == nil {
-		tg.nNeg = len(nq.Conditions)
+	if tg.raw {
+		// hand-written definitions of the fixed cases are small
+		if nq, err := query.Parse("-(" + tg.defText + ")"); err == nil {
+			tg.nNeg = len(nq.Conditions)
+		}
 	}
 	return nil
 }
@@ -1077,6 +1087,32 @@ func c02Check(w *c02World, sp *c02Search, q *query.Query, cs c02CondShape) (stri
 
 // c02Steer changes a drawn search so that it avoids the shapes of open findings;
 // it reports whether the search was changed.
+// c02InlineAliasShape: a conjunct with three tag filters of which at least one
+// is inlined (the tag has undecided streams and the filter does not accept
+// both undecided outcomes alike).
+func c02InlineAliasShape(conds query.ConditionsSet, tags []*c02Tag) bool {
+	const uncertain = query.TagConditionAcceptUncertainFailing | query.TagConditionAcceptUncertainMatching
+	for _, conj := range conds {
+		n, inlined := 0, 0
+		for _, cc := range conj {
+			tc, ok := cc.(*query.TagCondition)
+			if !ok {
+				continue
+			}
+			n++
+			for _, tg := range tags {
+				if tg.name == tc.TagName && len(tg.uncertain) != 0 && tc.Accept&uncertain != 0 && tc.Accept&uncertain != uncertain {
+					inlined++
+				}
+			}
+		}
+		if n >= 3 && inlined >= 1 {
+			return true
+		}
+	}
+	return false
+}
+
 func c02Steer(open map[string]bool, w *c02World, sp *c02Search, q *query.Query, cs c02CondShape) bool {
 	if !open[fC02Double] && !open[fC02EarlyTie] {
 		return false
@@ -1205,6 +1241,11 @@ func c02Prop(rt *rapid.T, c *vlib.Case, open map[string]bool) {
 		q, err := query.Parse(text)
 		if err != nil {
 			rt.Fatalf("generated query %q does not parse: %v", text, err)
+		}
+		if open[fC02InlineAlias] && c02InlineAliasShape(q.Conditions, tags) {
+			c.Count("excluded_known", 1)
+			c.Label("steered:" + fC02InlineAlias)
+			continue
 		}
 		cs := c02CondShapeOf(q.Conditions, w.tagDetails(q.ReferenceTime))
 		if c02Steer(open, w, sp, q, cs) {
@@ -1349,17 +1390,35 @@ func c02FixedCases(name string) []c02FixedCase {
 	case fC02NegImpTag:
 		// tag/a can never match; stream 1 is still undecided, so -tag:a must list it
 		f := []*vidx.SRec{c02FixedRec(1, 0, 1001, 80, "", &next), c02FixedRec(2, 1000000, 1002, 80, "", &next)}
-		tg := func() []*c02Tag { return []*c02Tag{{name: "tag/a", defText: "!chost:@chost@", uncertain: []uint{1}}} }
+		tg := func() []*c02Tag {
+			return []*c02Tag{{name: "tag/a", defText: "!chost:@chost@", uncertain: []uint{1}, raw: true}}
+		}
 		return []c02FixedCase{
 			{files: [][]*vidx.SRec{f}, tags: tg(), search: &c02Search{raw: "-tag:a", limit: 100}},
 			{files: [][]*vidx.SRec{f}, tags: tg(), search: &c02Search{raw: "tag:a", limit: 100}},
+		}
+	case fC02InlineAlias:
+		// three tag filters in one conjunct; tag/a is undecided for stream 2 and its negated definition is a
+		// single condition, tag/c is undecided for stream 9: the copies made while inlining tag/c share their
+		// backing array with the originals and overwrite the "decided and failing" variant of the tag/c filter
+		f := []*vidx.SRec{c02FixedRec(2, 0, 1002, 80, "", &next), c02FixedRec(9, 1000000, 1009, 80, "", &next)}
+		tg := func() []*c02Tag {
+			return []*c02Tag{
+				{name: "tag/a", defText: "id:10", uncertain: []uint{2}, raw: true},
+				{name: "tag/b", defText: "id:11", raw: true},
+				{name: "tag/c", defText: "id:12", uncertain: []uint{9}, raw: true},
+			}
+		}
+		return []c02FixedCase{
+			{files: [][]*vidx.SRec{f}, tags: tg(), search: &c02Search{raw: "-tag:a -tag:b -tag:c", limit: 100}},
+			{files: [][]*vidx.SRec{f}, tags: tg(), search: &c02Search{raw: "-tag:c -tag:b -tag:a", limit: 0}},
 		}
 	}
 	return nil
 }
 
 func TestVerifC02Fixed(t *testing.T) {
-	names := []string{fC02Double, fC02EarlyTie, fC02NegImpTag}
+	names := []string{fC02Double, fC02EarlyTie, fC02NegImpTag, fC02InlineAlias}
 	vlib.Fixed(t, "C02", names, func(name string) (string, any) {
 		cases := c02FixedCases(name)
 		if len(cases) == 0 {
